@@ -257,6 +257,9 @@ def task_check(rec, driver):
         stats['steps'] += 1
     lines += [f'tk.f {k_} {v_}' for k_, v_ in table.items()]
     lines.append(f'tk.run {N}')
+    if driver.ask(lines[0]) == 'unreadable':
+        stats['skipped'] = 'program-not-readable'      # (reported by the regenerated obligation of the part that is not)
+        return issues, stats
     outs = driver.ask_many(lines)
     bad = [(l[:60], o) for l, o in zip(lines[:-1], outs[:-1]) if o != 'ok']
     if bad:
